@@ -64,14 +64,7 @@ def gen_case(rng, tier):
         o = rng.choice(defs)
         defs.append(dict(o, id=len(defs), ext="txt", body=[["fault"]], short=rng.choice(["notes", "A", o["short"]])))
     if flavor == "twins":
-        o = rng.choice([d for d in defs if d["ext"] != "txt"])
-        same = rng.random() < 0.6
-        c = dict(o, id=len(defs), body=list(o["body"]) if same else list(o["body"]) + [["plain", 8]])
-        if o["ext"] == "dsdl" and rng.random() < 0.5:
-            c["ext"] = "uavcan"
-        else:
-            c["port"] = 7000 + rng.randrange(0, 100)
-        defs.append(c)
+        defs.append(B.make_twin(rng, defs, rng.choice([d for d in defs if d["ext"] != "txt"]), rng.random() < 0.6))
     qs = []
     extra_dirs = []
     r0 = roots[0]
